@@ -124,6 +124,11 @@ def run_case(case):
 
 
 def main():
+    import resource
+    try:  # a runaway allocation inside a kernel must fail fast, not exhaust the machine
+        resource.setrlimit(resource.RLIMIT_AS, (6 << 30, 6 << 30))
+    except (ValueError, OSError):
+        pass
     payload = json.load(sys.stdin)
     print(json.dumps({"out": [run_case(c) for c in payload["cases"]]}))
 
